@@ -144,13 +144,29 @@ class Driver:
     def __init__(self):
         self.calls = 0
 
-    def batch(self, items, timeout=300):
-        """items: iterable of (prop, op, tree_text) -> list of parsed answers."""
-        from enc import parse
+    TIMEOUT_ANSWER = [0, 96]     # "the driver did not answer this request in time" (never a model answer)
 
+    def batch(self, items, timeout=300, tolerant=False, item_timeout=60):
+        """items: iterable of (prop, op, tree_text) -> list of parsed answers.
+        tolerant=True: a request the driver cannot answer within item_timeout yields TIMEOUT_ANSWER instead of an
+        exception (the batch is bisected); the caller must count such answers as inconclusive, never as agreement."""
         items = list(items)
         if not items:
             return []
+        try:
+            return self._run(items, timeout)
+        except subprocess.TimeoutExpired:
+            if not tolerant:
+                raise
+        if len(items) == 1:
+            return [list(self.TIMEOUT_ANSWER)]
+        mid = len(items) // 2
+        t = max(item_timeout, timeout // 2)
+        return (self.batch(items[:mid], t, True, item_timeout) + self.batch(items[mid:], t, True, item_timeout))
+
+    def _run(self, items, timeout):
+        from enc import parse
+
         inp = "".join(f"{p} {o} {t}\n" for p, o, t in items)
         env = dict(os.environ)
         pr = subprocess.run(
